@@ -26,6 +26,7 @@ pub fn sim_plan(rng: &mut Rng, faulty: bool) -> SimPlan {
                 at_step: rng.range(5, 1500),
                 task: (*rng.pick(&["processor", "policy_worker", "processor", "c0", "c1"])).to_string(),
                 for_steps: rng.range(10, 400),
+                for_ns: 0,
             });
         }
         if rng.chance(1, 3) {
@@ -40,6 +41,20 @@ pub fn sim_plan(rng: &mut Rng, faulty: bool) -> SimPlan {
         epoch_phase_ns: rng.below(SEC),
         max_steps: 200_000,
         stall_after_recv_permille: after_recv,
+    }
+}
+
+/// A stall in virtual time of one task (descheduled thread, slow callback): see sim-rt `Stall`.
+pub fn vstall(rng: &mut Rng) -> StallPlan {
+    StallPlan {
+        at_step: rng.range(5, 700),
+        task: (*rng.pick(&["processor", "processor", "c0", "c1", "c0"])).to_string(),
+        for_steps: 0,
+        for_ns: match rng.below(3) {
+            0 => rng.range(100, 900) * MS,
+            1 => rng.range(1000, 2500) * MS,
+            _ => rng.range(2500, 5000) * MS,
+        },
     }
 }
 
@@ -116,7 +131,13 @@ pub fn gen_ttl_value(rng: &mut Rng) -> u64 {
         13 => SEC - 1,
         14 => SEC + 1,
         15..=17 => rng.range(3, 20) * SEC + rng.below(SEC),
-        18 => rng.range(1, 3) * 3600 * SEC,
+        18 => match rng.below(4) {
+            0 => rng.range(1, 3) * 3600 * SEC,
+            // edge values: a few nanoseconds, just under a microsecond, decades
+            1 => rng.range(1, 999),
+            2 => rng.range(1, 60) * 365 * 86400 * SEC + rng.below(SEC),
+            _ => rng.range(1, 999) * 1000 + rng.below(1000),
+        },
         _ => rng.range(1, 5000) * MS + rng.below(MS),
     }
 }
@@ -134,7 +155,15 @@ pub fn gen_ttl_family_c(prop: &str, seed: u64, faulty: bool, conditional: bool) 
     if conditional && rng.chance(6, 10) {
         cfg.validator = Validator::Mod { m: rng.range(2, 3), r: rng.below(2) };
     }
-    let sim = sim_plan(&mut rng, faulty);
+    let mut sim = sim_plan(&mut rng, faulty);
+    if faulty && rng.chance(1, 3) {
+        let v = vstall(&mut rng);
+        sim.stalls.push(v);
+        if rng.chance(1, 3) {
+            let v = vstall(&mut rng);
+            sim.stalls.push(v);
+        }
+    }
     let n_keys = rng.range(2, 8) as usize;
     let universe = gen_universe(&mut rng, n_keys);
     let cleanup = cfg.cleanup_ms * MS;
@@ -311,6 +340,12 @@ pub struct PProfile {
     pub wide_config: bool,
     /// share of get_ttl among lookups, in tenths
     pub get_ttl_tenths: u64,
+    /// % of runs with one or two stalls in virtual time
+    pub vstall_pct: u64,
+    /// TTLs from a narrow band (deadlines of different writes share a one-second bucket)
+    pub ttl_narrow: bool,
+    /// let every pending deadline pass at the end and look again
+    pub settle: bool,
 }
 
 impl Default for PProfile {
@@ -343,6 +378,9 @@ impl Default for PProfile {
             exit_only_cb_pct: 0,
             wide_config: false,
             get_ttl_tenths: 1,
+            vstall_pct: 0,
+            ttl_narrow: false,
+            settle: false,
         }
     }
 }
@@ -365,7 +403,7 @@ fn profile_for_quick(prop: &str) -> PProfile {
         "C01" => PProfile { over_capacity_pct: 85, chaos_umc_pct: 50, chaos_clear_pct: 10, if_present_pct: 12, collide_pct: 5, ..d },
         "C02" => PProfile { keys: (1, 5), get_mut_write: true, chaos_clear_pct: 25, collide_pct: 30, lookup_pct: 35, validator_pct: 15, wait_pct: 12, ..d },
         "C06" => PProfile { chaos_clear_pct: 30, over_capacity_pct: 60, ttl_pct: 35, small_buffer_pct: 25, ..d },
-        "C07" => PProfile { clients: (1, 3), keys: (4, 16), over_capacity_pct: 100, lookup_pct: 50, ttl_pct: 5, remove_pct: 5, chaos_umc_pct: 20, ops: (10, 40), collide_pct: 0, ..d },
+        "C07" => PProfile { clients: (1, 3), keys: (4, 16), over_capacity_pct: 100, lookup_pct: 50, ttl_pct: 5, remove_pct: 5, chaos_umc_pct: 20, ops: (10, 40), collide_pct: 0, exit_only_cb_pct: 10, ..d },
         "C08" => PProfile { chaos_clear_pct: 15, chaos_close_pct: 20, over_capacity_pct: 60, exit_only_cb_pct: 20, ttl_pct: 30, ..d },
         "C10" => PProfile { wait_pct: 25, chaos_clear_pct: 35, chaos_close_pct: 35, small_buffer_pct: 50, lookup_pct: 10, ops: (3, 12), ..d },
         "C11" => PProfile { chaos_clear_pct: 70, inline_clear_pct: 10, metrics_on: true, ops: (3, 14), ..d },
@@ -393,7 +431,16 @@ pub fn gen_p_family(prop: &str, seed: u64, pf: &PProfile) -> Plan {
     let mut rng = Rng::new(seed ^ 0x9a_77);
     let flavor = pick_flavor(&mut rng);
     let faulty = rng.chance(pf.faulty_pct, 100);
-    let sim = sim_plan(&mut rng, faulty);
+    let mut sim = sim_plan(&mut rng, faulty);
+    if rng.chance(pf.vstall_pct, 100) {
+        let v = vstall(&mut rng);
+        sim.stalls.push(v);
+        if rng.chance(1, 3) {
+            let v = vstall(&mut rng);
+            sim.stalls.push(v);
+        }
+    }
+    let narrow_base = rng.range(1, 3) * SEC;
     let n_clients = rng.range(pf.clients.0, pf.clients.1) as usize;
     let n_keys = rng.range(pf.keys.0, pf.keys.1) as usize;
     let mut cfg = roomy_cfg(&mut rng, flavor);
@@ -422,7 +469,7 @@ pub fn gen_p_family(prop: &str, seed: u64, pf: &PProfile) -> Plan {
     }
     cfg.coster = rng.chance(pf.coster_pct, 100);
     if rng.chance(pf.exit_only_cb_pct, 100) {
-        cfg.callback = CallbackMode::ExitOnly;
+        cfg.callback = if rng.chance(1, 2) { CallbackMode::ExitOnly } else { CallbackMode::ExitEvict };
     }
     let over = rng.chance(pf.over_capacity_pct, 100);
     let item = if cfg.ignore_internal_cost { 0 } else { 72 };
@@ -504,7 +551,7 @@ pub fn gen_p_family(prop: &str, seed: u64, pf: &PProfile) -> Plan {
                 } else if pf.sleeps && rng.chance(4, 100) {
                     script.push(Op::Sleep { ns: rng.range(1, 2500) * MS });
                 } else {
-                    let ttl = if rng.chance(pf.ttl_pct, 100) { gen_ttl_value(&mut rng).min(20 * SEC) } else { 0 };
+                    let ttl = if !rng.chance(pf.ttl_pct, 100) { 0 } else if pf.ttl_narrow { narrow_base + rng.range(50, 950) * MS } else { gen_ttl_value(&mut rng).min(20 * SEC) };
                     let cost = if cfg.coster && rng.chance(1, 3) {
                         0
                     } else if rng.chance(1, 40) {
@@ -586,6 +633,12 @@ pub fn gen_p_family(prop: &str, seed: u64, pf: &PProfile) -> Plan {
     }
     if prop == "C10" {
         tags.push("snap_at_wait".into());
+    }
+    if pf.settle {
+        tags.push("settle_ttl".into());
+    }
+    if sim.stalls.iter().any(|s| s.for_ns > 0) {
+        tags.push("vstall".into());
     }
     if prop == "C20" {
         tags.push("final_probe".into());
@@ -725,6 +778,80 @@ pub fn gen_c18_lockstep(seed: u64) -> Plan {
     }
     cfg.buffer_size = cfg.buffer_size.max(writes + 8);
     Plan { prop: "C18".into(), family: "L-collide".into(), seed, cfg, sim, clients: vec![ops], chaos: vec![], finale: Finale::None, universe, tags: vec!["lockstep".into(), "under_capacity".into(), "collide".into()] }
+}
+
+
+/// "Late arrival" family (C05): some long-lived TTL entries keep several expiry buckets alive and
+/// the cleanup ticking; then one client writes a short-TTL entry and is stalled for seconds of
+/// virtual time at a chosen scheduling point INSIDE that insert (after the deadline was computed,
+/// before the item is listed / queued), or the processor is.  The entry arrives in a bucket whose
+/// turn has already passed; it still has to be reclaimed within the bound, counted from its
+/// arrival.
+pub fn gen_late(prop: &str, seed: u64) -> Plan {
+    let mut rng = Rng::new(seed ^ 0x1a7e);
+    let flavor = pick_flavor_l(&mut rng);
+    let mut cfg = roomy_cfg(&mut rng, flavor);
+    cfg.cleanup_ms = *rng.pick(&[100u64, 200, 250, 500, 1000, 1000, 2000]);
+    let mut sim = sim_plan(&mut rng, false);
+    let n_fill = rng.range(2, 6) as usize;
+    let mut universe: Vec<u64> = Vec::new();
+    while universe.len() < n_fill + 2 {
+        let k = match rng.below(3) {
+            0 => rng.range(1, 40),
+            1 => 256 + rng.below(64),
+            _ => rng.range(1000, 100_000),
+        };
+        if !universe.contains(&k) {
+            universe.push(k);
+        }
+    }
+    let mut ops: Vec<Op> = Vec::new();
+    let mut writes = 0usize;
+    // fillers: distinct seconds, far enough out to survive the whole run
+    let mut secs: Vec<u64> = Vec::new();
+    for i in 0..n_fill {
+        let mut s = rng.range(12, 40);
+        while secs.contains(&s) {
+            s += 1;
+        }
+        secs.push(s);
+        ops.push(Op::Insert { k: universe[i], cost: rng.range(1, 4) as i64, ttl_ns: s * SEC + rng.below(SEC), size: 1 });
+        writes += 1;
+    }
+    ops.push(Op::Barrier);
+    // let a few sweeps go by
+    ops.push(Op::Sleep { ns: rng.range(1000, 4000) * MS + rng.below(MS) });
+    ops.push(Op::Barrier);
+    let rounds = rng.range(1, 3);
+    for r in 0..rounds {
+        let k = universe[n_fill + (r as usize % 2)];
+        if rng.chance(1, 3) {
+            // the key is resident already: the late write is an in-place update
+            ops.push(Op::Insert { k, cost: 1, ttl_ns: if rng.chance(1, 2) { 0 } else { rng.range(5, 30) * SEC }, size: 2 });
+            writes += 1;
+            ops.push(Op::Barrier);
+        }
+        let stall = rng.range(1200, 4500) * MS;
+        if rng.chance(3, 4) {
+            ops.push(Op::StallSelf { ns: stall, skip: rng.below(9) as u32 });
+        } else {
+            sim.stalls.push(StallPlan { at_step: 0, task: "processor".into(), for_steps: 0, for_ns: stall });
+        }
+        ops.push(Op::Insert { k, cost: rng.range(1, 4) as i64, ttl_ns: rng.range(20, 1100) * MS, size: 3 });
+        writes += 1;
+        if rng.chance(1, 2) {
+            ops.push(Op::Get { k, hold: 0 });
+        }
+        ops.push(Op::Barrier);
+        ops.push(Op::Sleep { ns: rng.range(200, 3000) * MS });
+        ops.push(Op::Barrier);
+    }
+    for k in &universe {
+        ops.push(Op::Get { k: *k, hold: 0 });
+    }
+    ops.push(Op::Barrier);
+    cfg.buffer_size = cfg.buffer_size.max(writes + 8);
+    Plan { prop: prop.into(), family: "L-late".into(), seed, cfg, sim, clients: vec![ops], chaos: vec![], finale: Finale::None, universe, tags: vec!["under_capacity".into(), "settle_ttl".into(), "vstall".into(), "late_arrival".into()] }
 }
 
 /// Scale family: one client inserts thousands of distinct keys (most with the same TTL), lets the
@@ -867,7 +994,11 @@ fn gen_plan_inner(prop: &str, seed: u64, variant: u64) -> Plan {
         "C04" if variant % 4 == 2 => gen_p_family(prop, seed, &PProfile { over_capacity_pct: 0, collide_pct: 0, ttl_pct: 30, remove_pct: 10, if_present_pct: 5, wait_pct: 5, ..PProfile::default() }),
         "C03" | "C04" => gen_ttl_family(prop, seed, variant % 4 == 3),
         "C05" if variant % 48 == 6 => gen_load(prop, seed),
-        "C05" if variant % 4 == 2 => gen_p_family(prop, seed, &PProfile { over_capacity_pct: 20, collide_pct: 5, ttl_pct: 70, remove_pct: 8, lookup_pct: 25, faulty_pct: 0, ..PProfile::default() }),
+        "C05" if variant % 16 == 10 => gen_late(prop, seed),
+        // same-key churn: a few clients rewrite one or two keys with and without TTL, deadlines in
+        // one bucket; the expiry index must follow the store whatever the interleaving
+        "C05" if variant % 8 == 2 => gen_p_family(prop, seed, &PProfile { clients: (2, 3), keys: (1, 2), ops: (8, 26), over_capacity_pct: 0, collide_pct: 0, ttl_pct: 55, ttl_narrow: true, remove_pct: 6, if_present_pct: 5, lookup_pct: 10, wait_pct: 2, sleeps: false, faulty_pct: 60, barrier_every: (3, 10), settle: true, ..PProfile::default() }),
+        "C05" if variant % 4 == 2 => gen_p_family(prop, seed, &PProfile { over_capacity_pct: 20, collide_pct: 5, ttl_pct: 70, remove_pct: 8, lookup_pct: 25, faulty_pct: 0, vstall_pct: 35, settle: true, ..PProfile::default() }),
         "C05" => gen_ttl_family(prop, seed, variant % 2 == 1),
         "C09" if variant % 4 == 2 => gen_p_family(prop, seed, &PProfile { clients: (2, 4), keys: (1, 3), validator_pct: 100, if_present_pct: 25, lookup_pct: 15, remove_pct: 8, over_capacity_pct: 20, collide_pct: 0, ttl_pct: 25, ops: (6, 24), ..PProfile::default() }),
         "C09" => gen_ttl_family_c(prop, seed, variant % 5 == 4, true),
